@@ -351,3 +351,70 @@
     {
         if n <= 0 { 0 } else { hint_count(h, n - 1) + (if h[(n - 1) / 256].0[(n - 1) % 256] != 0 { 1int } else { 0int }) }
     }
+    // ---- layouts of FIPS 204 Algorithms 22-27 (byte offsets inside pk / sk / sig)
+    pub open spec fn eta_ok(eta: int) -> bool { eta == 2 || eta == 4 }
+    pub open spec fn eta_step(eta: int) -> int { if eta == 2 { 96 } else { 128 } }       // 32 * bitlen(2*eta)
+    pub open spec fn pk_t1_bytes(pk: Seq<u8>, i: int) -> Seq<u8> { pk.subrange(32 + 320 * i, 32 + 320 * (i + 1)) }
+    pub open spec fn sk_s1_bytes(sk: Seq<u8>, eta: int, i: int) -> Seq<u8> {
+        sk.subrange(128 + i * eta_step(eta), 128 + (i + 1) * eta_step(eta))
+    }
+    pub open spec fn sk_s2_bytes(sk: Seq<u8>, eta: int, l: int, i: int) -> Seq<u8> {
+        sk.subrange(128 + l * eta_step(eta) + i * eta_step(eta), 128 + l * eta_step(eta) + (i + 1) * eta_step(eta))
+    }
+    pub open spec fn sk_t0_bytes(sk: Seq<u8>, eta: int, k: int, l: int, i: int) -> Seq<u8> {
+        sk.subrange(128 + (l + k) * eta_step(eta) + i * 416, 128 + (l + k) * eta_step(eta) + (i + 1) * 416)
+    }
+    pub open spec fn sk_len_ok(sk_len: int, eta: int, k: int, l: int) -> bool {
+        eta_ok(eta) && 1 <= k <= 8 && 1 <= l <= 8 && sk_len == 128 + (k + l) * eta_step(eta) + 416 * k
+    }
+    // C10: a private-key byte string is accepted exactly when every s1 / s2 field decodes into [-eta, eta]
+    pub open spec fn sk_fields_ok(sk: Seq<u8>, eta: int, k: int, l: int) -> bool {
+        &&& forall|i: int, j: int| 0 <= i < l && 0 <= j < 256 ==> -eta <= #[trigger] spec_unpack_coef(sk_s1_bytes(sk, eta, i), eta, eta, j) <= eta
+        &&& forall|i: int, j: int| 0 <= i < k && 0 <= j < 256 ==> -eta <= #[trigger] spec_unpack_coef(sk_s2_bytes(sk, eta, l, i), eta, eta, j) <= eta
+    }
+    pub open spec fn gamma1_ok(g: int) -> bool { g == 131_072 || g == 524_288 }
+    pub open spec fn z_step(gamma1: int) -> int { if gamma1 == 131_072 { 576 } else { 640 } }   // 32 * (1 + bitlen(gamma1 - 1))
+    pub open spec fn sig_z_bytes(sig: Seq<u8>, gamma1: int, lam4: int, i: int) -> Seq<u8> {
+        sig.subrange(lam4 + i * z_step(gamma1), lam4 + (i + 1) * z_step(gamma1))
+    }
+    pub open spec fn sig_hint_bytes(sig: Seq<u8>, gamma1: int, lam4: int, l: int) -> Seq<u8> {
+        sig.subrange(lam4 + l * z_step(gamma1), sig.len() as int)
+    }
+    pub open spec fn sig_len_ok(sig_len: int, gamma1: int, omega: int, k: int, l: int, lam4: int) -> bool {
+        gamma1_ok(gamma1) && 1 <= omega && 1 <= k <= 8 && 1 <= l <= 8 && omega + k < 256 && 0 <= lam4 <= 64
+            && sig_len == lam4 + l * z_step(gamma1) + omega + k
+    }
+    pub proof fn lemma_bitlen_consts()
+        ensures spec_bitlen(4) == 3, spec_bitlen(8) == 4, spec_bitlen(1023) == 10, spec_bitlen(8191) == 13,
+            spec_bitlen(131_071) == 17, spec_bitlen(524_287) == 19, spec_bitlen(262_143) == 18, spec_bitlen(1_048_575) == 20,
+            spec_bitlen(8_380_416) == 23, spec_bitlen(43) == 6, spec_bitlen(15) == 4,
+    {
+        assert(spec_bitlen(4) == 3) by (compute);
+        assert(spec_bitlen(8) == 4) by (compute);
+        assert(spec_bitlen(1023) == 10) by (compute);
+        assert(spec_bitlen(8191) == 13) by (compute);
+        assert(spec_bitlen(131_071) == 17) by (compute);
+        assert(spec_bitlen(524_287) == 19) by (compute);
+        assert(spec_bitlen(262_143) == 18) by (compute);
+        assert(spec_bitlen(1_048_575) == 20) by (compute);
+        assert(spec_bitlen(8_380_416) == 23) by (compute);
+        assert(spec_bitlen(43) == 6) by (compute);
+        assert(spec_bitlen(15) == 4) by (compute);
+    }
+    // a field always lies in [0, 2^c): when a + b + 1 == 2^c every decoded coefficient b - field is inside [-a, b]
+    pub proof fn lemma_unpack_full_range(v: Seq<u8>, a: int, b: int, j: int)
+        requires a >= 1, b >= 1, 0 < a + b < 1_048_576, a + b + 1 == p2(spec_bitlen(a + b)), j >= 0,
+        ensures -a <= spec_unpack_coef(v, a, b, j) <= b,
+    {
+        let c = spec_bitlen(a + b);
+        lemma_bitlen_bounds(a + b);
+        lemma_bits_range(v, c * j, c);
+    }
+    pub proof fn lemma_simple_unpack_full_range(v: Seq<u8>, b: int, j: int)
+        requires b >= 1, 0 < b < 1_048_576, b + 1 == p2(spec_bitlen(b)), j >= 0,
+        ensures 0 <= spec_unpack_coef(v, 0, b, j) <= b,
+    {
+        let c = spec_bitlen(b);
+        lemma_bitlen_bounds(b);
+        lemma_bits_range(v, c * j, c);
+    }
